@@ -167,7 +167,7 @@ def ev(sc: Scope, e, want=None):
             raise Invalid("index_range", "zero step")
         w = len(v)
         for b in (e[2], e[3]):
-            if b is not None and not (-w <= b <= w):
+            if b is not None and not (-w <= b <= w) and not sc.design.get("clamp"):
                 raise Invalid("index_range", f"bound {b} beyond [-{w},{w}]")
         r = v[slice(e[2], e[3], e[4])]
         if not r:
